@@ -37,6 +37,8 @@ func TestC17WriteCorpus(t *testing.T) {
 		{"parse-dsl-empty-query-string", "dsl", `{"query":{"bool":{"must":[{"query_string":{"query":""}}]}}}`, "convertAndParseQuerystring: nil pointer dereference"},
 		{"parse-dsl-sibling-aggs-order", "dsl", `{"aggs":{"2":{"aggs":{"agg1":{"terms":{"field":"vpcName"}},"3":{"avg":{"field":"a"}}},"terms":{"field":"vpcID"}}}}`,
 			"group-by column order depends on Go map iteration order"},
+		{"parse-dsl-nested-path-order", "dsl", `{"query":{"bool":{"must":[{"nested":{"path":"tags","query":{"bool":{"must":[{"match":{"tags.key":{"query":"k"}}},{"regexp":{"tags.value":{"value":"v"}}}]}}}}]}}}`,
+			"nested query: column and key are empty when the member \"query\" is visited before \"path\" (map order)"},
 	} {
 		write(p.name, "TestC17Parse", p.msg, newParseCase(p.lang, "corpus", []byte(p.text)))
 	}
@@ -64,5 +66,12 @@ func TestC17WriteCorpus(t *testing.T) {
 	// websocket queries leave a goroutine blocked in listenToConnection behind
 	write("life-websocket-listener-leak", "TestC17Lifecycle", "one goroutine per websocket query stays blocked in listenToConnection",
 		&lifeCase{DS: ds, MaxProcs: 2, Queries: []string{"* | stats count"}, Actions: []scriptAction{{Kind: "wsburst", Query: 0, N: 25, CancelAfterMs: -1}}})
+	// cancelled queries keep their timeout goroutine until the timeout expires: four rounds of four
+	// running websocket queries, each cancelled by its client after 300 ms
+	slow := "| gentimes start=-12 increment=1s | stats count"
+	write("life-cancelled-query-timeout-goroutine", "TestC17Lifecycle", "timeout goroutines of cancelled queries stay until the query timeout expires",
+		&lifeCase{DS: ds, MaxProcs: 4, Queries: []string{"* | stats count", slow}, Actions: []scriptAction{
+			{Kind: "wsburst", Query: 1, N: 4, CancelAfterMs: 300}, {Kind: "wsburst", Query: 1, N: 4, CancelAfterMs: 300, DelayMs: 700},
+			{Kind: "wsburst", Query: 1, N: 4, CancelAfterMs: 300, DelayMs: 700}, {Kind: "wsburst", Query: 1, N: 4, CancelAfterMs: 300, DelayMs: 700}}})
 	fmt.Println("corpus written to", dir)
 }
